@@ -85,7 +85,7 @@ def nulls_in(data, path=()):
 def _truncations(t: int, cut: int, c1: int, c2: int) -> bool:
     """
     pre: 0 <= t < len(G.TEMPLATES) and 0 <= cut <= 200 and 0 <= c1 < len(SUFFIX_CHARS) and 0 <= c2 < len(SUFFIX_CHARS)
-    pre: shard_of(t)
+    pre: shard_of(t + len(G.TEMPLATES) * (cut % 2))
     pre: thorough() or ((c2 == 0 or c1 == 1) and t < 8)
     post: _
     """
@@ -106,6 +106,55 @@ def _truncations(t: int, cut: int, c1: int, c2: int) -> bool:
         if not problem and "data" in resp and resp.get("errors") and resp["data"] is not None:
             pass
     return result(problem == "", "errors" in resp)
+
+
+def ref_loc(text, pos):
+    """1-based line / column of an offset, lines ending at LF (the templates contain no CR)"""
+    before = text[:pos]
+    return {"line": before.count("\n") + 1, "column": pos - (before.rfind("\n") + 1) + 1}
+
+
+def value_at(data, path):
+    """the value at `path`, or the marker 'gone' when an ancestor is null (non-null propagation)"""
+    cur = data
+    for p in path:
+        if cur is None:
+            return "gone"
+        cur = cur[p]
+    return cur
+
+
+def _error_paths(t: int, nul: int, fail: int, cfg: int) -> bool:
+    """
+    pre: 0 <= t < len(G.TEMPLATES) and 0 <= nul < len(G.NULLS) and 0 <= fail < len(G.FAILS) and 0 <= cfg <= 1
+    pre: thorough() or nul == 0 or fail == 0
+    pre: shard_of(t)
+    post: _
+    """
+    T = concrete_int(t, 0, len(G.TEMPLATES) - 1)
+    text, variables = G.TEMPLATES[T]
+    NUL, FAIL, C = pick(nul, G.NULLS), pick(fail, G.FAILS), concrete_int(cfg, 0, 1)
+    with untraced():
+        schema = G.build_real_schema(FAIL)
+        kw = dict(variables=variables, operation_name=G.OPNAMES.get(T), root=G.make_data(NUL, False))
+        res = graphql_blocking(schema, text, **kw) if C == 0 else process_graphql_query(schema, text, executor_cls=Executor, **kw)
+        resp = res.response()
+        exp_data, exp_errs = RX.run(G.MODEL, parse(text), variables, RX.World(fail=FAIL, fns=G.FNS), G.OPNAMES.get(T), G.make_data(NUL, False))
+        problem = check_response(resp, text, True)
+        if not problem and json.dumps(resp["data"]) != json.dumps(exp_data):
+            problem = "data differs from the reference"
+        if not problem:
+            # the serialised errors: exactly one entry per failed position, carrying that position's path and the field's location
+            got = sorted(((tuple(e.get("path", ("<none>",))), json.dumps(e.get("locations"), sort_keys=True)) for e in resp.get("errors", [])), key=repr)
+            exp = sorted(((path, json.dumps([ref_loc(text, pos)], sort_keys=True)) for path, pos in exp_errs), key=repr)
+            if got != exp:
+                problem = "errors %r, expected %r" % (got, exp)
+        if not problem:
+            # and each of them points at a null (or below a null that propagated upwards)
+            for path, _ in exp_errs:
+                if value_at(resp["data"], path) not in (None, "gone"):
+                    problem = "error path %r does not point at a null" % (path,)
+    return result(problem == "", bool(exp_errs))
 
 
 MESSAGES = ("boom", "", "é\"\\\n", "x" * 300)
@@ -222,11 +271,19 @@ def _solve_line_separator(tier):
 
 CONDITIONS = [
     Cond(
-        name="truncations", fn=_truncations, quick=200, thorough=900, per_path=60, shards_quick=8, shards_thorough=20,
+        name="truncations", fn=_truncations, quick=200, thorough=1200, per_path=60, shards_quick=8, shards_thorough=2 * len(G.TEMPLATES),
         bound="%d request templates cut at EVERY position, followed by 0..2 characters from a %d-character set of lexer-relevant characters (quick: first 8 templates, second character only after a backslash)" % (len(G.TEMPLATES), len(SUFFIX_CHARS)),
         symbolic={"t": "choice: template", "cut": "choice: cut position", "c1,c2": "choice: appended characters"},
         assumptions=["oracle: response-format checker (spec section 7): strict JSON, message str, locations {line, column} 1-based inside the text, path of str/int"],
         witness={"t": 0, "cut": 5, "c1": 1, "c2": 0},
+    ),
+    Cond(
+        name="error_paths", fn=_error_paths, quick=120, thorough=600, per_path=60, shards_quick=16, shards_thorough=21,
+        bound="%d valid request templates x %d data worlds with a null placed at a (non-)nullable position x %d failing-resolver sets (quick: one of the two varies) x 2 executors; incl. execution-time argument coercion "
+              "failures on a field node resolved several times (list items, one fragment under several parents)" % (len(G.TEMPLATES), len(G.NULLS), len(G.FAILS)),
+        symbolic={"t": "choice: template", "nul": "choice: null placement", "fail": "choice: failing resolvers", "cfg": "choice: executor"},
+        assumptions=["oracle: reference executor (oracles/ref_exec.py, spec section 6) gives the data and the multiset of (error path, field position); locations recomputed independently"],
+        witness={"t": 20, "nul": 0, "fail": 0, "cfg": 0},
     ),
     Cond(
         name="failures", fn=_failures, quick=60, thorough=120,
